@@ -153,6 +153,10 @@ type Sheet struct {
 	// <row> element plus one (or 1 for the first element), which is the value a
 	// consumer infers for it. Cells keep their r.
 	OmitRowR bool `json:"omit_row_r,omitempty"`
+	// OmitCellR omits the optional r attribute of a <c> (18.3.1.4) whenever the
+	// cell stands in the column after the cell written before it in its <row>
+	// element (column A for the first one), which is where a consumer puts it.
+	OmitCellR bool `json:"omit_cell_r,omitempty"`
 	// Noise adds the optional siblings Excel writes (sheetViews, sheetFormatPr,
 	// cols, pageMargins) in schema order.
 	Noise bool `json:"noise,omitempty"`
@@ -674,8 +678,10 @@ func (b *builder) sheetXML(s *Sheet) []byte {
 				continue
 			}
 			sb.WriteString(">")
+			nextCol := 0
 			for _, c := range ro.cells {
-				b.cellXML(&sb, p, c)
+				b.cellXML(&sb, p, c, s.OmitCellR && c.Col == nextCol)
+				nextCol = c.Col + 1
 			}
 			sb.WriteString("</" + p + "row>")
 		}
@@ -695,8 +701,12 @@ func (b *builder) sheetXML(s *Sheet) []byte {
 	return []byte(sb.String())
 }
 
-func (b *builder) cellXML(sb *strings.Builder, p string, c *Cell) {
-	fmt.Fprintf(sb, `<%sc r="%s"`, p, Ref(c.Col, c.Row))
+func (b *builder) cellXML(sb *strings.Builder, p string, c *Cell, omitR bool) {
+	if omitR {
+		fmt.Fprintf(sb, `<%sc`, p)
+	} else {
+		fmt.Fprintf(sb, `<%sc r="%s"`, p, Ref(c.Col, c.Row))
+	}
 	if c.Style != 0 && !b.w.Opt.NoStyles {
 		fmt.Fprintf(sb, ` s="%d"`, c.Style)
 	}
